@@ -70,6 +70,13 @@ def worker_main(pid, tier, seed, w, nw, outpath, only=None):
         prop = load_prop(pid)
         prop.tier, prop.seed = tier, seed
         prop.setup_worker()
+        reach = None
+        if getattr(prop, "ANCHORS", None):
+            from .reach import Reach
+            from . import runner as _r
+            _r.cminx()
+            reach = Reach()
+            reach.start(prop.ANCHORS)
         n = prop.n_cases(tier)
         idxs = [only] if only is not None else range(w, n, nw)
         sigs = set()
@@ -102,6 +109,9 @@ def worker_main(pid, tier, seed, w, nw, outpath, only=None):
         extra = prop.worker_extra()
         if extra:
             report["extra"] = extra
+        if reach is not None:
+            reach.stop()
+            report["reach"] = reach.counts
         prop.teardown_worker()
     except Exception:
         report["harness_errors"].append({"index": -1, "tb": traceback.format_exc()[-3000:]})
@@ -169,7 +179,7 @@ def drive(pid, tier, seed, workers=None):
     shutil.rmtree(tmpd, ignore_errors=True)
 
     merged = {"cases": 0, "obs": {}, "sets": {}, "samples": [], "skipped": {}, "violations": [],
-              "harness_errors": [], "extra": []}
+              "harness_errors": [], "extra": [], "reach": {}}
     sigs = set()
     for r in reports:
         merged["cases"] += r["cases"]
@@ -185,6 +195,11 @@ def drive(pid, tier, seed, workers=None):
         merged["harness_errors"].extend(r["harness_errors"])
         if "extra" in r:
             merged["extra"].append(r["extra"])
+        for k, v in r.get("reach", {}).items():
+            if v < 0:
+                merged["reach"].setdefault(k, -1)
+            else:
+                merged["reach"][k] = max(0, merged["reach"].get(k, 0)) + v
     if merged["harness_errors"]:
         inconclusive.append("harness-error: " + merged["harness_errors"][0]["tb"][-1200:])
 
@@ -219,6 +234,10 @@ def drive(pid, tier, seed, workers=None):
                        "count_in_run": len(by_cls[cls])}, f, indent=1, default=str)
         replay_paths[cls] = path
 
+    # ---- M-reach: an anchored function that was never entered means the deciding code was not exercised
+    for a, cnt in sorted(merged["reach"].items()):
+        if cnt == 0:
+            inconclusive.append(f"anchored function never reached: {a}")
     # ---- prop-specific sanity of what was observed (zero counters => inconclusive)
     try:
         inconclusive.extend(prop.check_observed(merged, tier) or [])
@@ -236,6 +255,7 @@ def drive(pid, tier, seed, workers=None):
         "distinct_seen_counts": {k: len(v) for k, v in sorted(merged["sets"].items())},
         "skipped_cases": merged["skipped"],
         "known_findings_reobserved": known_seen,
+        "anchored_calls": dict(sorted(merged["reach"].items())),
         "violation_classes": {c: len(by_cls[c]) for c in new_classes},
         "inconclusive_reasons": [s[:300] for s in inconclusive],
         "workers": nw,
